@@ -156,6 +156,10 @@ pub struct Sc {
 	pub errh: bool,
 	/// the marker closures probe pending high / urgent tickets (C10)
 	pub probes: bool,
+	/// all operations of a sender are sent back to back in one ENV action (nothing is
+	/// polled in between)
+	#[serde(default)]
+	pub burst: bool,
 }
 
 impl Sc {
@@ -171,6 +175,7 @@ impl Sc {
 			waiters: Waiters::One,
 			errh: false,
 			probes: false,
+			burst: false,
 		}
 	}
 	pub fn uses_time(&self) -> bool {
@@ -261,6 +266,11 @@ pub fn core_family(tier: Tier) -> Vec<(Sc, Vec<Bounds>)> {
 			// every script of length 3 on the default schedule, and "Start + two more
 			// operations" at k <= 1
 			out.extend(expand(seqs(&CORE, 3), both(0)));
+			// bursts: both operations queued before the job task is polled
+			out.extend(expand(seqs(&CORE, 2), [both(0), both(1)].concat()).into_iter().map(|(mut s, b)| {
+				s.burst = true;
+				(s, b)
+			}));
 			let mut l3 = vec![];
 			for s in seqs(&CORE, 2) {
 				let mut v = vec![Op::Start];
@@ -271,6 +281,10 @@ pub fn core_family(tier: Tier) -> Vec<(Sc, Vec<Bounds>)> {
 		}
 		Tier::Thorough => {
 			out.extend(expand(scripts_core(&CORE, 3), [both(0), both(1), both(2)].concat()));
+			out.extend(expand([seqs(&CORE, 2), seqs(&CORE, 3)].concat(), [both(0), both(1)].concat()).into_iter().map(|(mut s, b)| {
+				s.burst = true;
+				(s, b)
+			}));
 			let mut l4 = vec![];
 			for s in seqs(&CORE8, 3) {
 				let mut v = vec![Op::Start];
@@ -379,7 +393,12 @@ pub fn order_family(tier: Tier) -> Vec<(Sc, Vec<Bounds>)> {
 				script.extend(s.iter().map(|o| (*o, 0)));
 				let mut sc = Sc::base(script, React::Ignore, 2);
 				sc.probes = true;
-				out.push((sc, if l == len { k0_only.clone() } else { passes.clone() }));
+				out.push((sc.clone(), if l == len { k0_only.clone() } else { passes.clone() }));
+				// the same body as one burst: everything is queued before the job task looks
+				if l >= 2 {
+					sc.burst = true;
+					out.push((sc, if l == len { k0_only.clone() } else { passes.clone() }));
+				}
 				// two senders: split the body in every way into an order-preserving pair
 				if l >= 2 && l <= 3 {
 					for mask in 1..(1u32 << l) - 1 {
